@@ -37,8 +37,6 @@ SITES = {
    ('PerKey', 'normalises the commands of this name'),
  ('cisco', 'parse.go', 'postprocessParsed', 'for _, l := range lookup["ip access-list extended"]', '1b88fb9987b8'):
    ('PerKey', 'normalises the commands of this name'),
- ('cisco', 'parse.go', 'postprocessParsed', 'for _, l := range lookup[prefix]', 'a89ec8c5d625'):
-   ('PerKey', 'normalises the commands of this name'),
  ('cisco', 'parse.go', 'postprocessParsed', 'for _, l := range lookup[prefix]', '565bef2ca1c5'):
    ('PerKey', 'normalises the commands of this name'),
  ('cisco', 'parse.go', 'postprocessParsed', 'for _, l := range lookup[prefix]', 'eb0722bc8670'):
@@ -47,6 +45,8 @@ SITES = {
    ('PerKey', 'normalises the commands of this name'),
  ('cisco', 'parse.go', 'postprocessParsed', 'for name, l := range lookup["tunnel-group"]', 'a6ce84033c72'):
    ('PerKey', 'marks the commands of this name'),
+ ('cisco', 'verif_hooks.go', 'VerifNameTables', 'for k, v := range m', '855df4b1ebd7'):
+   ('PerKey', 'hook (build tag verif): copies the entry of this key into the result map'),
  ('linux', 'parse.go', 'normalizeIPTables', 'for k, v := range pairs', '1c4da2c599fd'):
    ('PerKey', 'normalises the value of this option'),
  ('asa', 'device.go', 'isValidOutput', 'for prefix, re := range validOutput', '495608c21d95'):
